@@ -557,7 +557,7 @@ SPL = {1: "H", 2: "He", 3: "Fe", 9: "Zz"}
 V_TARGETS = {False: ["LAMMPS", "GULP", "DL_POLY", "setfl", "DL_POLY_EAM", "excel_eam", "excel", "eam_adp"], True: ["setfl_fs", "DL_POLY_EAM_fs", "excel_eam_fs"]}
 
 
-def v_entry(e, lst, fs):
+def v_entry(e, lst, fs, rich=False):
     sp = [SPL[x] for x in e["sp"]]
     if lst == "pair":
         key = "%s-%s" % tuple(sp)
@@ -565,14 +565,18 @@ def v_entry(e, lst, fs):
         key = "%s->%s" % tuple(sp)
     else:
         key = sp[0]
+    if rich:      # the same function through a custom formula that calls a table form (which no entry names directly)
+        return "%s : >=0 viaform %d 1" % (key, e["id"])
     return "%s : >=0 as.polynomial %d 1" % (key, e["id"])
 
 
-def v_render(doc, target):
+def v_render(doc, target, rich=False):
     out = ["[Tabulation]", "target : %s" % target, "nr : 8", "cutoff : 3.5", "nrho : 4", "cutoff_rho : 3.0", ""]
-    out += ["[Pair]"] + [v_entry(e, "pair", doc["fs"]) for e in doc["pair"]] + [""]
-    out += ["[EAM-Embed]"] + [v_entry(e, "embed", doc["fs"]) for e in doc["embed"]] + [""]
-    out += ["[EAM-Density]"] + [v_entry(e, "dens", doc["fs"]) for e in doc["dens"]] + [""]
+    if rich:
+        out += ["[Potential-Form]", "viaform(r, a, b) = a + b*r + tzero(r)", "", "[Table-Form:tzero]", "xy : 0 0 1 0 2 0 3 0 4 0 5 0", ""]
+    out += ["[Pair]"] + [v_entry(e, "pair", doc["fs"], rich) for e in doc["pair"]] + [""]
+    out += ["[EAM-Embed]"] + [v_entry(e, "embed", doc["fs"], rich) for e in doc["embed"]] + [""]
+    out += ["[EAM-Density]"] + [v_entry(e, "dens", doc["fs"], rich) for e in doc["dens"]] + [""]
     if target == "eam_adp":
         # the statement names pair, embedding and density entries: the dipole / quadrupole sections are in the hand-deleted file as
         # they are in the original (a function for a pair that has lost an element is simply not tabulated)
@@ -642,8 +646,9 @@ def _view_one(idx):
     try:
         for target in V_TARGETS[doc["fs"]]:
             binary = target.startswith("excel")
-            base = v_render(doc, target)
-            hand = v_render(case["filtered"], target)
+            rich = idx % 3 == 2
+            base = v_render(doc, target, rich)
+            hand = v_render(case["filtered"], target, rich)
             want = v_tabulate(hand, binary)
             for route in ("cli", "api"):
                 got = v_cli(base, binary, view, d) if route == "cli" else v_tabulate(base, binary, view)
@@ -758,6 +763,31 @@ def _history_job(job):
                     if got != want and len(bad) < 5:
                         bad.append(("view-keeps-callers-object", "view created with %s=%s passed as %s: read %d of %s gives %s, the file with the entries deleted has %s" % (
                             v["mode"], labels, kind, rep, lst, got, want)))
+    # ---- a view created from a view (Views.tla: chain): deleting for the inner filter, then for the outer one
+    def keeps(v, e):
+        return set(e["sp"]) <= set(v["S"]) if v["mode"] == "include" else not (set(e["sp"]) & set(v["S"]))
+
+    def mk(parent, v):
+        labels = [SPL[x] for x in v["S"]]
+        return FilteredConfigParser(parent, include=labels) if v["mode"] == "include" else FilteredConfigParser(parent, exclude=labels)
+    for v1 in pool:
+        for v2 in pool:
+            cp = ConfigParser(io.StringIO(text))
+            inner = mk(cp, v1)
+            outer = mk(inner, v2)
+            f1 = by[json.dumps(v1, sort_keys=True)]["filtered"]
+            for lst in ("pair", "embed", "dens"):
+                attr = {"pair": "pair", "embed": "eam_embed", "dens": "eam_density_fs" if doc["fs"] else "eam_density"}[lst]
+                want = [_want_tuple(e) for e in f1[lst] if keeps(v2, e)]
+                got = [_sp_tuple(p, doc["fs"], lst) for p in getattr(outer, attr)]
+                n += 1
+                if got != want and len(bad) < 5:
+                    bad.append(("view-of-a-view", "view (%s %s) created from a view (%s %s): reading %s gives %s, deleting for the inner and then for the outer filter leaves %s" % (
+                        v2["mode"], [SPL[x] for x in v2["S"]], v1["mode"], [SPL[x] for x in v1["S"]], lst, got, want)))
+                # the inner view is what it was
+                got1 = [_sp_tuple(p, doc["fs"], lst) for p in getattr(inner, attr)]
+                if got1 != [_want_tuple(e) for e in f1[lst]] and len(bad) < 5:
+                    bad.append(("view-not-independent", "view (%s %s) after a view was created from it: reading %s gives %s" % (v1["mode"], [SPL[x] for x in v1["S"]], lst, got1)))
     return dict(bad=bad, n=n)
 
 
@@ -960,6 +990,9 @@ def main_c13(tier, seed):
                 run.machinery("TLC: %s violated on Views_thorough\n%s" % (r4.violated, r4.stdout[-1200:]))
             else:
                 run.add_tlc("Views_thorough", r4)
+        r6 = tlc.run("Views", "Views_flatten.cfg", timeout=600)
+        if r6.violated != "ReadIsFilter":
+            run.machinery("anti-vacuity: Views_flatten.cfg (a view of a view joins the label lists) should violate ReadIsFilter, TLC says %r" % (r6.violated,))
         r5 = tlc.run("Views", "Views_aliased.cfg", timeout=600)
         if r5.violated != "ReadIsFilter":
             run.machinery("anti-vacuity: Views_aliased.cfg (the view keeps the caller's collection object) should violate ReadIsFilter, TLC says %r" % (r5.violated,))
